@@ -56,6 +56,7 @@ pub fn all() -> Vec<CheckDef> {
                 Family { variant: "", name: "T3-reader-on-chain-harris-unlink", strategy: |_| templates::t3(), cases: |t| t.pick(16_000, 160_000) },
                 Family { variant: "", name: "T4-upgrade-racing-cascade", strategy: |_| templates::t4(), cases: |t| t.pick(12_000, 120_000) },
                 Family { variant: "", name: "T5-install-into-unlinked-node", strategy: |_| templates::t5(), cases: |t| t.pick(12_000, 120_000) },
+                Family { variant: "", name: "T8-destructor-holding-a-guard", strategy: |_| templates::t8(), cases: |t| t.pick(12_000, 120_000) },
             ],
             exec: rcworld::exec,
             rule: "free programs and templates (reader / unlinker / stalled dropper / collector); non-trivial = (a) an object was destructed while another thread was inside a critical section in which it holds at least one snapshot (the O-snap oracle was evaluated against a non-empty holding set of a peer), or (b) collection rounds ran while some object had no definite strong owner left and was protected only by a peer's snapshot; distinct = distinct hash of the case",
@@ -283,6 +284,7 @@ pub fn all() -> Vec<CheckDef> {
             id: "C14",
             families: vec![
                 Family { variant: "", name: "ebr-advance", strategy: |t| ebrworld::free(ebrworld::EW_ADVANCE, 4, t.pick(30, 45), t.pick(12, 20)), cases: |t| t.pick(40_000, 400_000) },
+                Family { variant: "", name: "E1-bag-overflow-inside-registry-scan", strategy: |_| ebrworld::e1(), cases: |t| t.pick(30_000, 300_000) },
                 Family { variant: "", name: "ebr-free", strategy: |t| ebrworld::free(ebrworld::EW_DEFAULT, 4, t.pick(24, 36), t.pick(10, 17)), cases: |t| t.pick(16_000, 160_000) },
             ],
             exec: ebrworld::exec,
